@@ -38,7 +38,6 @@ func (fc *FnCtx) structKeySort(T types.Type) string {
 	if fc.vc.subs[name] {
 		return s
 	}
-	fc.vc.subs[name] = true
 	st := structOf(T)
 	var fields []string
 	for i := 0; i < st.NumFields(); i++ {
@@ -48,7 +47,12 @@ func (fc *FnCtx) structKeySort(T types.Type) string {
 		}
 		fields = append(fields, fmt.Sprintf("(%s %s)", sym(name+"."+st.Field(i).Name()), leafSort(k)))
 	}
-	fc.vc.sc.raw(fmt.Sprintf("(declare-datatypes ((%s 0)) (((%s %s))))", s, sym("mk"+name), strings.Join(fields, " ")))
+	decl := fmt.Sprintf("(declare-datatypes ((%s 0)) (((%s %s))))", s, sym("mk"+name), strings.Join(fields, " "))
+	fc.vc.sc.raw(decl)
+	keyDeclMu.Lock()
+	keySortDecls[name] = decl
+	keyDeclMu.Unlock()
+	fc.vc.subs[name] = true
 	return s
 }
 
